@@ -242,6 +242,21 @@ def run_case(case, ctx):
                           {"class": case["cls"], "n": n, "stride": stride, "shift": shift, "index": wi,
                            "shift_is_multiple_of_stride": shift % stride == 0}, mechanism=mech)
                 ctx.event("propagation_matrices_checked")
+            # the perturbative-corrections option returns the same propagation matrix and, like every call, leaves the rate matrix and the
+            # propagator as they were: the calls that follow it still conserve and still match the exponential
+            corr = int(rng.integers(0, 3))
+            with ctx.lib("get_PropagationMatrix(corrections=%d) and the calls after it" % corr):
+                res = prop.get_PropagationMatrix(ts, corrections=corr, exact=True)
+                Uc = numpy.asarray(res[0])
+                data_after = numpy.array(rmx.data if as_obj else rmx, dtype=float)
+                pops2 = numpy.array(prop.propagate(p0.copy()))
+                U2 = numpy.asarray(prop.get_PropagationMatrix(ts))
+            det17 = {"class": case["cls"], "n": n, "corrections": corr, "rate_matrix_given_as": "RateMatrix" if as_obj else "array"}
+            if ok:
+                ctx.check("propagation-matrix==expm", float(numpy.max(numpy.abs(Uc - U))), 1e-12, dict(det17, what="matrix returned together with the corrections"))
+                ctx.check("propagation-matrix==expm", float(numpy.max(numpy.abs(U2 - U))), 0.0, dict(det17, what="same call repeated after a corrections call"))
+            ctx.check("colsum-zero", float(numpy.max(numpy.abs(data_after - K))), 0.0, dict(det17, what="rate matrix handed to the propagator, after get_PropagationMatrix(corrections)"))
+            ctx.check("populations==expm", float(numpy.max(numpy.abs(pops2 - pops))), 0.0, dict(det17, what="propagate() repeated after a corrections call"))
         else:
             ctx.event("subaxis_rejected_by_is_subset_of")
     nonzero = bool(numpy.any(K - numpy.diag(numpy.diag(K)) != 0))
